@@ -1,5 +1,6 @@
 //! `vcheck <ID> [--tier quick|thorough] [--replay path]`
 
+use super::bb_c05::*;
 use super::bb_c10::*;
 use super::bb_c12::*;
 use super::bb_graph::*;
@@ -78,6 +79,7 @@ pub fn main() -> i32 {
         "C02" => c02(&ctx),
         "C03" => c03(&ctx),
         "C04" => c04(&ctx),
+        "C05" => c05(&ctx),
         "C06" => c06(&ctx),
         "C07" => c07(&ctx),
         "C08" => c08(&ctx),
@@ -203,6 +205,22 @@ fn bb_replays(ctx: &Ctx, report: &mut Report) -> u64 {
             }
         };
         let r = &v["replay"];
+        if r["engine"] == "BB-c05" {
+            match replay_c05(r) {
+                Ok(res) => {
+                    n += 1;
+                    if let Some(msg) = res.violation {
+                        println!("  replay {} still fails: {}", path.display(), msg);
+                        report.fail(Failure {
+                            message: msg,
+                            signature: res.signature.unwrap_or_default(),
+                            replay: res.replay,
+                        });
+                    }
+                }
+                Err(e) => report.infra_errors.push(e),
+            }
+        }
         if r["engine"] == "BB-c12" {
             match replay_c12(r) {
                 Ok(res) => {
@@ -694,5 +712,73 @@ fn c13(ctx: &Ctx) -> i32 {
     inc_part(ctx, &mut report, "c13", false, ctx.tier.pick(800, 15_000),
         "producer/consumer arrangements (same project, imported project, chain of two producers in the imported project; identical relative paths and command texts in both projects) x edits of producer outputs, of look-alikes in the consumer's project and of command sources; structural: resolved consumer depends on X and its input is own resources followed by X's outputs bound to X's directory; behavioural: producer-output change => consumer runs, unchanged => skipped; non-trivial = cross-project with a colliding path or command text",
         113);
+    report.finish()
+}
+
+fn c05(ctx: &Ctx) -> i32 {
+    let mut report = Report::new(ctx, "fault_enumeration");
+    report.assume("a partial write is emulated as 'truncate, write the first k bytes of the serialised record, die' (File::create + sequential writes); reordering below the file system is out of scope");
+    report.assume("with an unchanged input a corrupted record may lead to either decision unless an independent decoder (calibrated on the pristine record of the same run) says the bytes do not decode");
+    report.assume("every zinoma spawned here runs under RLIMIT_AS = 4 GiB");
+    super::bb::AS_LIMIT_MB.store(4096, std::sync::atomic::Ordering::Relaxed);
+    bb_replays(ctx, &mut report);
+    if ctx.replay.is_none() {
+        let rule = "fault x project {one target with files + command inputs, two targets linked by t.output}: script exit status {1,2,126,127,130,137,255}, script killed, zinoma aborting at {decided, deleted, script running, script done, state computed}, record written up to byte k, SIGINT/SIGTERM {just after exec, while the script runs, right after it}, state-file corruption {truncation, bit flip, overwrite, foreign content incl. huge declared lengths, patched length fields, trailing bytes} with the input changed or not; oracle = the next plain invocation exits 0 without panic/abort and runs the script again whenever that is the only correct answer; non-trivial = fault strictly inside the build cycle / corruption keeping the length; distinct = fault class x offset bucket x project";
+        let pr = PropRun {
+            ctx,
+            engine: "BB",
+            rule,
+            total_cases: ctx.tier.pick(240, 3000),
+            threads: 8.min(ctx.threads),
+            max_shrink_iters: 60,
+            stream: 105,
+        };
+        let (part, failures) = run_prop(&pr, c05_case, eval_c05);
+        report.add(part);
+        for f in failures {
+            report.fail(f);
+        }
+        if ctx.tier == Tier::Thorough {
+            // exhaustive sub-spaces: every write offset, every truncation offset, a flip per byte
+            let mut part = Part::new("BB-exhaustive", "every partial-write offset 0..=len, every truncation offset (input changed and unchanged), one bit flip per byte, for the one-target and the two-target reference records");
+            for two in [false, true] {
+                // probe the record length
+                let probe = eval_c05(&C05Case { two_targets: two, fault: Fault::PartialWrite(u16::MAX) });
+                let len = probe.sample["detail"]["full_len"].as_u64().unwrap_or(400) as usize;
+                let cases = exhaustive_cases(two, len);
+                let results: Vec<CaseResult> = {
+                    let chunks: Vec<&[C05Case]> = cases.chunks(cases.len().div_ceil(8).max(1)).collect();
+                    let mut out = vec![];
+                    std::thread::scope(|s| {
+                        let hs: Vec<_> = chunks.iter().map(|ch| s.spawn(move || ch.iter().map(eval_c05).collect::<Vec<_>>())).collect();
+                        for h in hs {
+                            out.extend(h.join().unwrap());
+                        }
+                    });
+                    out
+                };
+                for r in results {
+                    part.evaluations += 1;
+                    for c in &r.classes {
+                        part.class(c);
+                    }
+                    if let Some(i) = &r.inconclusive {
+                        part.inconclusive(i);
+                    }
+                    if r.nontrivial && r.violation.is_none() {
+                        part.nontrivial.insert(fnv(&r.fingerprint));
+                        if part.samples.len() < 2 {
+                            part.samples.push(r.sample.clone());
+                        }
+                    }
+                    if let Some(msg) = r.violation {
+                        report.fail(Failure { message: msg, signature: r.signature.unwrap_or_default(), replay: r.replay });
+                    }
+                }
+            }
+            part.exhaustive = Some(true);
+            report.add(part);
+        }
+    }
     report.finish()
 }
